@@ -389,6 +389,45 @@ func flapping(d *fw.Driver, res *fw.Result, seed int64, cycles int) error {
 	return checkRedial(d, res, e.RT.Events(), true, sig, c)
 }
 
+// politeClose: the server ends the connection with a close frame (normal closure 1000, or going away
+// 1001) instead of a reset — to the client that is a lost connection like any other: it must heal.
+func politeClose(d *fw.Driver, res *fw.Result, seed int64, kind string) error {
+	sig := "server closes politely kind=" + kind
+	c := map[string]interface{}{"scenario": "polite-close", "kind": kind, "seed": seed}
+	e, err := scen.NewEnv(seed, 1)
+	if err != nil {
+		return err
+	}
+	defer e.Close()
+	ctx, cancel := context.WithCancel(context.Background())
+	defer cancel()
+	cl, closer, err := e.Client(ctx, jsonrpc.WithReconnectBackoff(minD, maxD), jsonrpc.WithPingInterval(0), jsonrpc.WithTimeout(0))
+	if err != nil {
+		return err
+	}
+	if v, err := cl.Add(1, 2); err != nil || v != 3 {
+		return fmt.Errorf("harness error: first call failed: %v", err)
+	}
+	acc0 := e.PX.Accepted()
+	e.PX.Cut(0, kind)
+	healed := probe(cl, 4*time.Second)
+	if !healed {
+		res.Add(fw.Finding{Kind: "monitor", Signature: sig + " no heal", Detail: fmt.Sprintf("after the server ended the connection with a close frame the client did not become usable again within 4s (new connections seen by the proxy: %d)", e.PX.Accepted()-acc0), Case: c})
+	} else {
+		tokSeq += 2
+		tok := tokSeq
+		ch := goCall(func() (int, error) { return cl.CountRetry(ctx, tok) })
+		if o, ok := waitOutcome(ch, 3*time.Second); !ok || o.err != nil || o.val != tok {
+			res.Add(fw.Finding{Kind: "monitor", Signature: sig + " retry call", Detail: fmt.Sprintf("a retry-tagged call after the heal returned (%d, %v, returned=%v)", o.val, o.err, ok), Case: c})
+		}
+	}
+	scen.WithTimeout(3*time.Second, closer)
+	time.Sleep(2 * time.Millisecond)
+	res.Count("scenario.polite-close")
+	res.Eval(true, []interface{}{"polite-close", kind})
+	return checkRedial(d, res, e.RT.Events(), true, sig, c)
+}
+
 // noReconnect: a client created WithNoReconnect.
 func noReconnect(d *fw.Driver, res *fw.Result, seed int64) error {
 	sig := "noreconnect"
@@ -426,6 +465,10 @@ func noReconnect(d *fw.Driver, res *fw.Result, seed int64) error {
 	return checkRedial(d, res, e.RT.Events(), false, sig, c)
 }
 
+// KeepaliveAfterHeal is the scenario "after a heal the keepalive works on the new connection" for the
+// checks of other properties (C17: a healthy link — also a re-established one — is never dropped).
+func KeepaliveAfterHeal(d *fw.Driver, res *fw.Result, seed int64) error { return keepalive(d, res, seed) }
+
 // keepalive: after a heal the keepalive works on the new connection.
 func keepalive(d *fw.Driver, res *fw.Result, seed int64) error {
 	sig := "keepalive after heal"
@@ -442,6 +485,28 @@ func keepalive(d *fw.Driver, res *fw.Result, seed int64) error {
 	if err != nil {
 		return err
 	}
+	// conclusive only if the environment was responsive (see scen.LagProbe)
+	outer := res
+	res = fw.NewResult("C05", seed, "")
+	lagProbe := scen.StartLagProbe()
+	defer func() {
+		lag := lagProbe.Stop()
+		gap, frames := e.MaxGapS2C(e.PX.Accepted())
+		envOK := lag < timeout/4 && (frames < 2 || gap < timeout*6/10)
+		for _, f := range res.Findings {
+			if f.Kind == "monitor" && !envOK {
+				outer.Count("keepalive.inconclusive-slow-environment")
+				outer.Note(fmt.Sprintf("%s: verdict %q dropped as inconclusive — the environment was not responsive enough for timeout %v (max scheduling lag %v, max gap between peer frames %v)", sig, f.Signature, timeout, lag, gap))
+				continue
+			}
+			outer.Add(f)
+		}
+		outer.Traces += res.Traces
+		outer.Events += res.Events
+		for k, v := range res.Distribution {
+			outer.CountN(k, v)
+		}
+	}()
 	if v, err := cl.Add(1, 2); err != nil || v != 3 {
 		return fmt.Errorf("harness error: first call failed: %v", err)
 	}
@@ -499,6 +564,11 @@ func Scenarios(d *fw.Driver, res *fw.Result, seed int64, thorough bool) error {
 	}
 	for i, k := range flaps {
 		if err := flapping(d, res, seed+100+int64(i), k); err != nil {
+			return err
+		}
+	}
+	for i, k := range []string{"close1000", "close1001"} {
+		if err := politeClose(d, res, seed+150+int64(i), k); err != nil {
 			return err
 		}
 	}
